@@ -283,7 +283,7 @@ func retripRace(bound int) *sched.Scenario {
 			for i := 0; i < w.n; i++ {
 				if w.evs[i].kind < 2 {
 					fmt.Fprintf(&sb, "%d%c", w.evs[i].thread, "pr"[w.evs[i].kind])
-				} else {
+				} else if w.evs[i].kind == 2 {
 					sb.WriteString(w.evs[i].state[:1])
 				}
 			}
